@@ -24,7 +24,7 @@ Theorem cache_spec cfg s a e p :
     p_ready e' = p_ready e /\
     p_store e' = if (N.of_nat (length (p_store e)) <? maxCachedPackets)%N then p_store e ++ [p] else p_store e.
 Proof.
-  intros E. cbn [rstep]. rewrite E. cbn [fst snd wh ridx pend]. repeat split.
+  intros E. cbn [rstep]. unfold cache_op. rewrite E. cbn [fst snd wh ridx pend]. repeat split.
   exists (cache e p). split; [apply mget_mset_eq|]. unfold cache.
   destruct (N.of_nat (length (p_store e)) <? maxCachedPackets)%N; auto.
 Qed.
@@ -40,7 +40,7 @@ Theorem release cfg s a e :
   snd r = map (fun p => RData (k_tag p)) (filter (fw_allows cfg) (p_store e)) /\
   mget a (pend (fst r)) = None /\ ~ In (p_id e) (ridx (fst r)) /\ wh (fst r) = wh s.
 Proof.
-  intros E R. cbn [rstep]. rewrite E, R. cbn [fst snd drop pend ridx wh]. split; [reflexivity|].
+  intros E R. cbn [rstep]. unfold complete_op. rewrite E, R. cbn [fst snd drop pend ridx wh]. split; [reflexivity|].
   split; [now rewrite mget_mdel, N.eqb_refl|]. split; [apply not_in_remove_id|reflexivity].
 Qed.
 
@@ -55,9 +55,38 @@ Theorem restart_keeps_queue cfg s a e v :
               p_counter e' = 0 /\ p_ready e' = false) /\
   wh (fst r) = add (a, rser s) (r_interval cfg) (wh s) /\ tr (fst r) = tr s ++ [OAdd (a, rser s) (r_interval cfg)].
 Proof.
-  intros E R. cbn [rstep]. rewrite E, R. cbn [fst snd]. unfold fresh, arm, drop. cbn [pend ridx wh tr rser rnxt].
+  intros E R. cbn [rstep]. unfold wrong_op. rewrite E, R. cbn [fst snd]. unfold fresh, arm, drop. cbn [pend ridx wh tr rser rnxt].
   split; [reflexivity|]. split; [apply not_in_remove_id|]. split; [|auto].
   eexists. split; [apply mget_mset_eq|]. auto.
+Qed.
+
+(* the tun reader interleaved with continueHandshake: a packet queued between the receipt of the stage 2 and
+   Complete is part of the queue that is replayed - every packet cachePacket stored is sent exactly once, in order,
+   if the firewall allows it; one that found the queue full is dropped *)
+Theorem release_interleaved cfg s a e p :
+  mget a (pend s) = Some e -> p_ready e = true ->
+  let r := rstep cfg (RCompleteQ a p) s in
+  let q := if (N.of_nat (length (p_store e)) <? maxCachedPackets)%N then p_store e ++ [p] else p_store e in
+  snd r = map (fun p => RData (k_tag p)) (filter (fw_allows cfg) q) /\
+  mget a (pend (fst r)) = None /\ ~ In (p_id e) (ridx (fst r)).
+Proof.
+  intros E R. cbn [rstep]. unfold answerable. rewrite E, R.
+  destruct (cache_spec cfg s a e p E) as (_ & _ & _ & e' & E' & I' & _ & R' & S'). cbn [rstep fst] in E'.
+  rewrite R in R'. destruct (release cfg (cache_op cfg a p s) a e' E' R') as (A & B & C & _).
+  cbn [rstep] in A, B, C. rewrite A, S', <- I'. auto.
+Qed.
+
+(* ... and on a wrong-responder restart it moves to the new attempt with the rest of the queue *)
+Theorem restart_interleaved cfg s a e v p :
+  mget a (pend s) = Some e -> p_ready e = true ->
+  let r := rstep cfg (RWrongQ a v p) s in
+  let q := if (N.of_nat (length (p_store e)) <? maxCachedPackets)%N then p_store e ++ [p] else p_store e in
+  snd r = [] /\ exists e', mget a (pend (fst r)) = Some e' /\ p_store e' = q /\ p_counter e' = 0.
+Proof.
+  intros E R. cbn [rstep]. unfold answerable. rewrite E, R.
+  destruct (cache_spec cfg s a e p E) as (_ & _ & _ & e1 & E1 & _ & _ & R1 & S1). cbn [rstep fst] in E1.
+  rewrite R in R1. destruct (restart_keeps_queue cfg (cache_op cfg a p s) a e1 v E1 R1) as (A & _ & (e2 & E2 & S2 & _ & C2 & _) & _).
+  cbn [rstep] in A, E2. split; [exact A|]. exists e2. rewrite S2, S1. auto.
 Qed.
 
 (* ---------- handleOutbound --------------------------------------------------------------------------- *)
@@ -209,22 +238,42 @@ Proof.
   unfold ext, fresh, arm. cbn [tr]. eexists. split; reflexivity.
 Qed.
 
+Lemma ext_cache_op cfg a p s : ext s (cache_op cfg a p s) [].
+Proof.
+  unfold cache_op. destruct (mget a (pend s)); [now apply ext_same_tr|].
+  pose proof (ext_fresh cfg a [] [] s) as X. set (s1 := fresh cfg a [] [] s) in *.
+  destruct (mget a (pend s1)); [|exact X]. destruct X as (h & E & N). exists h. auto.
+Qed.
+
+Lemma ext_complete_op cfg a s : ext s (fst (complete_op cfg a s)) [].
+Proof.
+  unfold complete_op. destruct (mget a (pend s)) as [e|]; [|apply ext_refl].
+  destruct (p_ready e); [now apply ext_same_tr|apply ext_refl].
+Qed.
+
+Lemma ext_wrong_op cfg a v s : ext s (fst (wrong_op cfg a v s)) [].
+Proof.
+  unfold wrong_op. destruct (mget a (pend s)) as [e|]; [|apply ext_refl]. destruct (p_ready e); [|apply ext_refl].
+  cbn [fst]. unfold ext, fresh, arm, drop. cbn [tr]. eexists. split; reflexivity.
+Qed.
+
 Lemma ext_step cfg o s : ext s (fst (rstep cfg o s)) (ticks [o]).
 Proof.
   destruct o; cbn [rstep ticks].
   - destruct (mget a (pend s)); [apply ext_refl|apply ext_fresh].
-  - destruct (mget a (pend s)); [now apply ext_same_tr|].
-    pose proof (ext_fresh cfg a [] [] s) as X. set (s1 := fresh cfg a [] [] s) in *.
-    destruct (mget a (pend s1)); cbn [fst]; [|exact X].
-    destruct X as (h & E & N). exists h. auto.
+  - apply ext_cache_op.
   - destruct (mget a (pend s)); [now apply ext_same_tr|apply ext_refl].
   - apply ext_handle.
   - unfold tick. set (s1 := set_wh s (advance now (wh s)) (OAdvance now)).
     assert (X1 : ext s s1 [now]) by (exists [OAdvance now]; split; reflexivity).
     exact (ext_trans _ _ _ _ _ X1 (ext_drain cfg _ s1)).
-  - destruct (mget a (pend s)) as [e|]; [|apply ext_refl]. destruct (p_ready e); [now apply ext_same_tr|apply ext_refl].
-  - destruct (mget a (pend s)) as [e|]; [|apply ext_refl]. destruct (p_ready e); [|apply ext_refl].
-    cbn [fst]. unfold ext, fresh, arm, drop. cbn [tr]. eexists. split; reflexivity.
+  - apply ext_complete_op.
+  - apply ext_wrong_op.
+  - destruct (answerable a s); [|apply ext_refl].
+    exact (ext_trans _ _ _ _ _ (ext_cache_op cfg a p s) (ext_complete_op cfg a _)).
+  - destruct (answerable a s); [|apply ext_refl].
+    exact (ext_trans _ _ _ _ _ (ext_cache_op cfg a p s) (ext_wrong_op cfg a v _)).
+  - apply ext_cache_op.
 Qed.
 
 Lemma ext_run cfg ops : forall s, ext s (rrun cfg s ops) (ticks ops).
